@@ -14,3 +14,25 @@ def specCovered {ρ : Type} [BEq ρ] (genuine : List ρ) (out : Option ρ) : Boo
   | some r => genuine.contains r
 
 end Xsw
+
+namespace Xsw
+
+/-- `item` is covered by `key`: one of its ds:Signature children carries `key`'s signature over
+    its SignedInfo, and a Reference of that SignedInfo names the item's own ID and digests exactly
+    the item minus that Signature child. -/
+def coveredB (item : XNode) (key : Nat) : Bool :=
+  item.kids.zipIdx.any fun p =>
+    p.1.tag == dsSignature &&
+    match firstChild p.1 dsSignedInfo, item.attr "ID" with
+    | some (_, si), some id =>
+      (childrenWith si dsReference).any (fun ref =>
+        ref.attr "URI" == some ("#" ++ id) &&
+        (match firstChild ref dsDigestValue with
+         | some (_, dv) => valueKids dv == [XNode.digest (removeAt item [p.2])]
+         | none => false)) &&
+      (match firstChild p.1 dsSignatureValue with
+       | some (_, sv) => valueKids sv == [XNode.sigval key si]
+       | none => false)
+    | _, _ => false
+
+end Xsw
